@@ -856,7 +856,11 @@ func (v *Verifier) runPartition(pkg *ssa.Package, fn *ssa.Function, c *Contract,
 	fr.entry = st.clone()
 	fr.run(fn.Blocks[0], nil, st, nil)
 	if len(fr.returns) == 0 {
-		// no path returns: nothing to prove for post (all paths panic or diverge)
+		// no path returns: the postconditions would hold vacuously. Unless the contract says so ("option
+		// never-returns"), this is reported as a failed reachability obligation, not as success.
+		if c.Options["never-returns"] == "" && len(c.Ensures) > 0 {
+			fr.oblige(fr.entry, "reach:return", v.F.False(), "some path reaches a return (otherwise every postcondition holds vacuously)")
+		}
 		return
 	}
 	for i := range fr.returns {
